@@ -141,6 +141,11 @@ V("c07e-common-subexpression-kept-right", "C07", "silent",
   (GSTEPS, "    original_G = state._G[index]\n\n    state._G = connector.assign(", "    original_G = state._G[index]\n\n    antinormal_C = original_C.transpose() + np.identity(len(modes))\n\n    state._G = connector.assign("),
   (GSTEPS, "        + P @ (original_C.transpose() + np.identity(len(modes))) @ A.transpose()", "        + P @ antinormal_C @ A.transpose()"),
   (GSTEPS, "        + A.conjugate()\n        @ (original_C.transpose() + np.identity(len(modes)))\n        @ A.transpose()", "        + A.conjugate() @ antinormal_C @ A.transpose()"))
+FSTEPS = "piquasso/_simulators/fock/simulation_steps.py"
+V("c08b-attenuator-mirror-without-conjugate", "C08", {"rule": "C08b", "contains": "mirror-fill-conjugate"},
+  (FSTEPS, "    for index, basis in operator_basis(space):\n        coefficient = new_state._density_matrix[index]", "    for index, basis in operator_basis(space):\n        if index[0] < index[1]:\n            continue\n\n        coefficient = new_state._density_matrix[index]"), (FSTEPS, "            current_index = (current_ket_index, current_bra_index)\n\n            new_density_matrix[current_index] += common_term * (\n                np.tan(theta) ** (2 * k) * np.sqrt(comb(n, k) * comb(m, k))\n            )\n", "            term = common_term * (\n                np.tan(theta) ** (2 * k) * np.sqrt(comb(n, k) * comb(m, k))\n            )\n\n            new_density_matrix[current_ket_index, current_bra_index] += term\n\n            if index[0] != index[1]:\n                new_density_matrix[current_bra_index, current_ket_index] += term\n"))
+V("c08b-attenuator-mirror-with-conjugate", "C08", "silent",
+  (FSTEPS, "    for index, basis in operator_basis(space):\n        coefficient = new_state._density_matrix[index]", "    for index, basis in operator_basis(space):\n        if index[0] < index[1]:\n            continue\n\n        coefficient = new_state._density_matrix[index]"), (FSTEPS, "            current_index = (current_ket_index, current_bra_index)\n\n            new_density_matrix[current_index] += common_term * (\n                np.tan(theta) ** (2 * k) * np.sqrt(comb(n, k) * comb(m, k))\n            )\n", "            term = common_term * (\n                np.tan(theta) ** (2 * k) * np.sqrt(comb(n, k) * comb(m, k))\n            )\n\n            new_density_matrix[current_ket_index, current_bra_index] += term\n\n            if index[0] != index[1]:\n                new_density_matrix[current_bra_index, current_ket_index] += np.conj(term)\n"))
 # ------------------------------------------------------------------------------------------- C20
 V("c20-sub-add", "C20", {"rule": "C20c", "contains": "Sub"}, (EXPR, "ast.Sub: op.sub", "ast.Sub: op.add"))
 V("c20-lt-le", "C20", {"rule": "C20c", "contains": "Lt"}, (EXPR, "ast.Lt: op.lt", "ast.Lt: op.le"))
